@@ -208,6 +208,22 @@ func c03Run(r *sim.Run) {
 			return
 		}
 		name = "two-protected-tracks"
+	} else if len(c06Sources) > 0 && t.Chance(70) {
+		// protected media segments on their own (no init: the decoders cannot consult tenc / the track list)
+		rnd := t.Sub()
+		key := make([]byte, 16)
+		rnd.Fill(key)
+		var p *C06Prod
+		var err error
+		r.Guard("producer+encryptor", func() { p, err = c06Produce(r, []string{"cenc", "cbcs"}[t.Draw(2)], key, randIV(t, rnd)) })
+		if err != nil || p == nil {
+			return
+		}
+		for _, sg := range p.EncSegs {
+			x = append(x, sg...)
+		}
+		name = "protected-segments-without-init"
+		r.Probe("protected-segments-without-init")
 	} else {
 		i := t.Draw(len(c03Streams))
 		x, name = c03Streams[i], c03Names[i]
@@ -222,7 +238,7 @@ func c03Run(r *sim.Run) {
 	if t.Chance(450) || name == "built-init" {
 		units, err := work.ParseUnits(x)
 		if err == nil {
-			deep := t.Chance(400) || name == "built-init"
+			deep := t.Chance(400) || name == "built-init" || name == "protected-segments-without-init"
 			ops := work.Transport(r, &units, 1+t.Draw(2), deep, []string{"splice", "dup", "swap", "move", "drop", "largesize"})
 			x = work.Serialize(units, true)
 			r.Logf("unit transport on %s: %v -> %d bytes", name, ops, len(x))
